@@ -1,11 +1,14 @@
 // C05: fields libtins derives (lengths, header lengths / offsets, next-protocol tags, minimum-frame padding, checksums, FCS)
 // are correct on the wire for independent decoders.
-//   family G : every grammar packet (hand-written stacks + generated (class, setter, sample) variants)
-//   family X : ~45 checksum-carrying stack shapes x payload sizes (0..131, 1472, the 65535-byte limit), option / extension-header /
-//              ICV length ladders (every IPv6 extension header data size 0..24, TCP / IP option sizes 0..38, AH ICV sizes)
+//   family G : every grammar packet (hand-written stacks + generated (class, setter, sample) variants), also with a 5 / 6 byte payload appended
+//   family X : 46 checksum-carrying stack shapes x every payload size 0..140 (thorough 0..1600) + large sizes + the 65535-byte limit;
+//              ladders: every IPv6 extension header data size 0..24, TCP / IP option sizes 0..38, AH ICV sizes, RFC 4884 original datagram
+//              sizes x {extension} x {length octet}, wrong preset tags in front of every known child, Ethernet payload sizes 0..64
 //   family S : for every stack shape, one 16-bit word (payload word with even and odd payload length; IPv4 id; a word inside the
-//              ICMP extension object) swept through ALL 65536 values (--reduced: every 251st value + boundaries + the values that
-//              make the checksum field 0x0000 / 0xffff)
+//              ICMP extension object; thorough: long payloads too) swept through ALL 65536 values (--reduced in the quick tier: every
+//              251st value + boundaries + the values that make the checksum field 0x0000 / 0xffff)
+//   family V : fields the harness sets (ports, VLAN id, session id, ICMP type, TTL, address octet, MPLS label) swept through their domain,
+//              libpcap programs compiled per value
 //   family P : the wire seeds of the corpus parsed by their entry point and re-serialized
 // Oracles: (1) mc/ref/dissect.hpp (own RFC 1071 sum, pseudo headers, bitwise CRC-32, protocol tables) compared layer by layer with
 // the object that was serialized; (2) libpcap filter predicates over the fields that were set: must match, and must not match a
